@@ -8,11 +8,11 @@ source on every run; the spec `Spec.StandardFlow` lists the legal flows from the
 
 The main theorems are LANGUAGE EQUALITIES for ALL words over the alphabet (no length bound):
 the kernel checks a bisimulation between the two acceptors on their (finitely many) control
-states (`certificate … = true` by `decide`), and `Lemmas.Flow.accepts_eq_of_bisim` turns it
+states (`bisimCertificate … = true` by `decide`), and `Lemmas.Flow.accepts_eq_of_bisim` turns it
 into equality of the accepted languages by induction on the word, carrying the counter of
 ignorable records along generically.  A skeleton in which an assertion is switched
 mandatory ↔ optional, a state is dropped or duplicated, the ChangeCipherSpec rule is relaxed …
-makes `certificate` evaluate to `false`, and the theorem stops compiling.
+makes `bisimCertificate` evaluate to `false`, and the theorem stops compiling.
 -/
 import Gotlcp.Lemmas.Flow
 import Gotlcp.Generated.Facts
@@ -49,16 +49,16 @@ def serverCfg (resume requested emptyOK : Bool) : Cfg :=
 
 /-- the finite certificate the kernel evaluates: same tolerance, and the pairs reachable from
 the two initial states form a bisimulation -/
-def certificate (s : Skeleton) (root : String) (cfg : Cfg) (F : Flows) : Bool :=
+def bisimCertificate (s : Skeleton) (root : String) (cfg : Cfg) (F : Flows) : Bool :=
   s.maxUseless == maxIgnorable &&
   match start cfg (progOf s root) with
   | none => false
   | some q0 => bisimFrom (auto cfg (progOf s root)) specAuto q0 F
 
 theorem lang_eq_of_certificate (s : Skeleton) (root : String) (cfg : Cfg) (F : Flows)
-    (h : certificate s root cfg F = true) (w : List Kind) :
+    (h : bisimCertificate s root cfg F = true) (w : List Kind) :
     accepts s root cfg w = inLang F w := by
-  unfold certificate at h
+  unfold bisimCertificate at h
   simp only [Bool.and_eq_true, beq_iff_eq] at h
   obtain ⟨hmax, h2⟩ := h
   unfold accepts
@@ -103,5 +103,155 @@ theorem C08_server_full (requested emptyOK : Bool) (w : List Kind) :
 theorem C08_server_resumed (requested emptyOK : Bool) (w : List Kind) :
     accepts tlcpSk serverRoot (serverCfg true requested emptyOK) w = true ↔ inLang serverResumed w = true := by
   cases requested <;> cases emptyOK <;> rw [lang_eq_of_certificate tlcpSk serverRoot _ serverResumed (by decide)]
+
+/-! ### all scenarios at once, and the corollaries of the property statement -/
+
+/-- role × full/resumed × the options fixed before the first message -/
+inductive Scenario
+  | clientFull (ecdhe : Bool)
+  | clientResumed (ecdhe : Bool)
+  | serverFull (requested emptyOK : Bool)
+  | serverResumed (requested emptyOK : Bool)
+
+def Scenario.root : Scenario → String
+  | .clientFull _ | .clientResumed _ => clientRoot
+  | .serverFull _ _ | .serverResumed _ _ => serverRoot
+
+def Scenario.cfg : Scenario → Cfg
+  | .clientFull e => clientCfg false e
+  | .clientResumed e => clientCfg true e
+  | .serverFull r o => serverCfg false r o
+  | .serverResumed r o => serverCfg true r o
+
+/-- the standard's language for the scenario -/
+def Scenario.lang : Scenario → Flows
+  | .clientFull e => Gotlcp.Spec.StandardFlow.clientFull ⟨e⟩
+  | .clientResumed _ => Gotlcp.Spec.StandardFlow.clientResumed
+  | .serverFull r o => Gotlcp.Spec.StandardFlow.serverFull ⟨r, o⟩
+  | .serverResumed _ _ => Gotlcp.Spec.StandardFlow.serverResumed
+
+theorem bool_eq_of_iff {a b : Bool} (h : a = true ↔ b = true) : a = b := by
+  cases a <;> cases b <;> simp_all
+
+/-- the accepted language of the TLCP endpoint is the standard's, in every scenario, for every word -/
+theorem C08_language (sc : Scenario) (w : List Kind) :
+    accepts tlcpSk sc.root sc.cfg w = inLang sc.lang w := by
+  cases sc with
+  | clientFull e => exact bool_eq_of_iff (C08_client_full e w)
+  | clientResumed e => exact bool_eq_of_iff (C08_client_resumed e w)
+  | serverFull r o => exact bool_eq_of_iff (C08_server_full r o w)
+  | serverResumed r o => exact bool_eq_of_iff (C08_server_resumed r o w)
+
+theorem lang_warnFree (sc : Scenario) : sc.lang.all warnFree = true := by
+  cases sc with
+  | clientFull e => cases e <;> decide
+  | clientResumed e => cases e <;> decide
+  | serverFull r o => cases r <;> cases o <;> decide
+  | serverResumed r o => cases r <;> cases o <;> decide
+
+theorem lang_noAdjDup (sc : Scenario) : sc.lang.all noAdjDup = true := by
+  cases sc with
+  | clientFull e => cases e <;> decide
+  | clientResumed e => cases e <;> decide
+  | serverFull r o => cases r <;> cases o <;> decide
+  | serverResumed r o => cases r <;> cases o <;> decide
+
+/-- the one legal omission: the optional CertificateRequest of the ECC client flow -/
+theorem lang_noOmission (sc : Scenario) (h : sc ≠ .clientFull false) : noOmission sc.lang = true := by
+  cases sc with
+  | clientFull e => cases e <;> first | decide | exact absurd rfl h
+  | clientResumed e => cases e <;> decide
+  | serverFull r o => cases r <;> cases o <;> decide
+  | serverResumed r o => cases r <;> cases o <;> decide
+
+/-- repetition: a word in which a message kind occurs twice in a row (warning alerts in between
+or not) is never accepted -/
+theorem C08_repeat_fails (sc : Scenario) (a m b : List Kind) (k : Kind) (hk : k ≠ .warningAlert)
+    (hm : ∀ x ∈ m, x = Kind.warningAlert) :
+    accepts tlcpSk sc.root sc.cfg (a ++ [k] ++ m ++ [k] ++ b) = false := by
+  rw [C08_language]
+  exact inLang_repeat _ (lang_warnFree sc) (lang_noAdjDup sc) a m b k hk hm
+
+/-- foreign message: a kind that occurs in no legal flow of the scenario is fatal wherever it appears -/
+theorem C08_foreign_fails (sc : Scenario) (k : Kind) (hk : k ≠ .warningAlert)
+    (hforeign : sc.lang.all (fun f => !f.contains k) = true) (w : List Kind) (hw : k ∈ w) :
+    accepts tlcpSk sc.root sc.cfg w = false := by
+  rw [C08_language]
+  exact inLang_foreign _ (lang_warnFree sc) k hk hforeign w hw
+
+/-- omission: dropping any message from an accepted word gives a word that is not accepted (the
+only scenario with an optional message, the ECC client's CertificateRequest, is excluded here and
+covered by `C08_client_full` itself) -/
+theorem C08_omission_fails (sc : Scenario) (hsc : sc ≠ .clientFull false) (a b : List Kind) (k : Kind)
+    (hk : k ≠ .warningAlert) (h : accepts tlcpSk sc.root sc.cfg (a ++ [k] ++ b) = true) :
+    accepts tlcpSk sc.root sc.cfg (a ++ b) = false := by
+  rw [C08_language] at h ⊢
+  exact inLang_omission _ (lang_warnFree sc) (lang_noOmission sc hsc) a b k hk h
+
+/-- bounded tolerance: `maxUselessRecords + 1` consecutive warning alerts are fatal, wherever they occur -/
+theorem C08_useless_bound (sc : Scenario) (a b : List Kind) :
+    accepts tlcpSk sc.root sc.cfg
+      (a ++ List.replicate (Facts.tlcp.maxUselessRecords + 1) .warningAlert ++ b) = false := by
+  rw [C08_language]
+  have : Facts.tlcp.maxUselessRecords = maxIgnorable := by decide
+  rw [this]
+  exact inLang_long_warn_run _ a b
+
+/-- the facts the theorems above rest on, as extracted from this tree -/
+theorem C08_facts :
+    Facts.missing = [] ∧
+    compiles tlcpSk clientRoot = true ∧ compiles tlcpSk serverRoot = true ∧
+    Facts.tlcp.maxUselessRecords = 16 ∧
+    Facts.tlcp.retryIncrementsFirst = true ∧ Facts.tlcp.retryLimitCond = "c.retryCount > maxUselessRecords" ∧
+    Facts.tlcp.clientResumesOnlyOnEcho = true := by
+  decide
+
+/-! ### non-vacuity and the finding F1 -/
+
+open Kind in
+/-- the legal flows are accepted (with tolerated warning alerts), so the equalities are not about empty languages -/
+example : accepts tlcpSk clientRoot (clientCfg false false)
+    [serverHello, warningAlert, certificate, serverKeyExchange, certificateRequest, serverHelloDone, ccs, finished] = true := by
+  decide
+
+open Kind in
+example : accepts tlcpSk serverRoot (serverCfg false true true)
+    [clientHello, certificateEmpty, clientKeyExchange, ccs, warningAlert, finished] = true := by decide
+
+open Kind in
+/-- 16 warning alerts are tolerated -/
+example : accepts tlcpSk clientRoot (clientCfg true false)
+    ([serverHello] ++ List.replicate 16 warningAlert ++ [ccs, finished]) = true := by decide
+
+open Kind in
+/-- F1, on the repaired tree: the flow without ServerKeyExchange is refused … -/
+example : accepts tlcpSk clientRoot (clientCfg false false)
+    [serverHello, certificate, serverHelloDone, ccs, finished] = false := by decide
+
+/-- the skeleton of `doFullHandshake` as it was extracted before the repair (ServerKeyExchange optional) -/
+def preRepairDoFull : List RawOp :=
+  [([], "read", "&hs.finishedHash", ""),
+   ([], "must", "certificateMsg", "len(certMsg.certificates) == 0"),
+   ([], "read", "&hs.finishedHash", ""),
+   ([], "opt", "serverKeyExchangeMsg", ""),
+   ([("opt", "serverKeyExchangeMsg")], "call", "keyAgreement.processServerKeyExchange", ""),
+   ([("opt", "serverKeyExchangeMsg")], "read", "&hs.finishedHash", ""),
+   ([], "opt", "certificateRequestMsg", ""),
+   ([("opt", "certificateRequestMsg")], "read", "&hs.finishedHash", ""),
+   ([], "must", "serverHelloDoneMsg", ""),
+   ([], "call", "keyAgreement.generateClientKeyExchange", ""),
+   ([], "return", "ok", "")]
+
+def preRepairSk : Skeleton :=
+  { tlcpSk with flows := tlcpSk.flows.map (fun f =>
+      if f.1 == "client:clientHandshakeState.doFullHandshake" then (f.1, preRepairDoFull) else f) }
+
+open Kind in
+/-- … while the pre-repair skeleton accepts it although it is not in the standard's language:
+the negation of C08 (and of C02) on the unchanged tree -/
+example : accepts preRepairSk clientRoot (clientCfg false false)
+      [serverHello, certificate, serverHelloDone, ccs, finished] = true ∧
+    inLang (clientFull ⟨false⟩) [serverHello, certificate, serverHelloDone, ccs, finished] = false := by
+  decide
 
 end Gotlcp.Props.C08
